@@ -119,10 +119,16 @@ def run(ctx):
         r.violations.append(core.Violation(["C20"], "trap", {"kind": "spec_requirement", "invariant": res2.violated, "fn": "spokes_grad"}, "TLC: %s fails on Spokes.tla" % res2.violated, {}))
     nsp = 0
     if res2.dump_path and not r.machinery_error:
-        for st in tlaval.read_dump(res2.dump_path):
-            if st["done"] != len(st["blips"]):
-                continue  # replay finished assemblies
+        finished = [st for st in tlaval.read_dump(res2.dump_path) if st["done"] == len(st["blips"])]   # replay finished assemblies
+        groups = {}
+        for st in finished:
+            groups.setdefault((st["G"], st["sub"], len(st["blips"])), []).append(st)
+        for st in finished:
             nsp += 1
+            # the y axis is the same assembly applied to the ky increments: it is bound to a SECOND behaviour of the model with the
+            # same limits and number of spokes (so kx and ky increments differ in size and sign, or one of them is zero)
+            grp = groups[(st["G"], st["sub"], len(st["blips"]))]
+            sty = grp[(grp.index(st) + 1 + nsp % 3) % len(grp)]
             G, sub = frac(st["G"]), frac(st["sub"])
             dgdt, dt = UNITS[nsp % len(UNITS)]
             gmax = float(G) * dgdt * dt
@@ -130,24 +136,29 @@ def run(ctx):
             sub_area = float(sub) * dgdt * dt * dt
             # spokes_grad derives the slice-select area from tbw / (sl_thick/10) / 4257
             tbw, sl_thick = 4.0, 4.0 / (sub_area * gam) * 10
-            bl = [float(frac(b)) * dgdt * dt * dt for b in st["blips"]]
-            # spoke locations whose successive differences (last back to 0) are the blip areas * gamma
-            kx = [0.0]
-            for b in bl[:-1]:
-                kx.append(kx[-1] + b * gam)
-            # the last increment returns to 0: choose the start so that it equals bl[-1]
-            shift = -(kx[-1] + bl[-1] * gam)
-            kx = [v + shift for v in kx]
-            k = np.stack([np.array(kx), np.zeros(len(kx))], axis=1)
-            key = {"fn": "spokes_grad", "G": str(G), "sub": str(sub), "blips": [str(frac(b)) for b in st["blips"]], "fits": bool(st["ok"])}
+            axes_bl = []
+            cols = []
+            for sta in (st, sty):
+                bl = [float(frac(b)) * dgdt * dt * dt for b in sta["blips"]]
+                # spoke locations whose successive differences (last back to 0) are the blip areas * gamma
+                kk = [0.0]
+                for b in bl[:-1]:
+                    kk.append(kk[-1] + b * gam)
+                # the last increment returns to 0: choose the start so that it equals bl[-1]
+                shift = -(kk[-1] + bl[-1] * gam)
+                cols.append(np.array([v + shift for v in kk]))
+                axes_bl.append(bl)
+            k = np.stack(cols, axis=1)
+            fits = bool(st["ok"]) and bool(sty["ok"])
+            key = {"fn": "spokes_grad", "G": str(G), "sub": str(sub), "blips": [str(frac(b)) for b in st["blips"]], "blips_y": [str(frac(b)) for b in sty["blips"]], "fits": fits}
             r.evaluations += 1
             try:
                 g = rf.spokes_grad(k, tbw, sl_thick, gmax, dgdt, dt)
             except Exception as e:
-                if st["ok"]:
+                if fits:
                     r.violations.append(core.Violation(["C20"], "trap", dict(key, kind="exception"), "spokes_grad raised %r for a spoke set whose blips fit" % (e,), {}))
                 continue
-            if not st["ok"]:
+            if not fits:
                 continue  # blips longer than a sub-pulse: outside what the assembly can express (DESIGN.md, C20)
             tol = 1e-9
             if np.abs(g).max() > gmax * (1 + tol):
@@ -156,11 +167,12 @@ def run(ctx):
                 r.violations.append(core.Violation(["C20"], "trap", dict(key, kind="slew"), "spokes gradient exceeds the slew limit: %g > %g" % (np.abs(np.diff(g, axis=1)).max() / dt, dgdt), {}))
             sub_w, _ = rf.min_trap_grad(tbw / (sl_thick / 10) / 4257, gmax, dgdt, dt)  # the very expression spokes_grad evaluates
             Lsub = sub_w.size
-            for i, b in enumerate(bl):
-                got = g[0, i * Lsub:(i + 1) * Lsub].sum() * dt
-                if abs(got - b) > 1e-9 * max(abs(b), 1e-30) + 1e-18:
-                    r.violations.append(core.Violation(["C20"], "trap", dict(key, kind="kspace_increment", spoke=i),
-                                                       "x-gradient area inside spoke window %d is %.10g, requested increment %.10g" % (i, got, b), {}))
+            for ax, bl in enumerate(axes_bl):
+                for i, b in enumerate(bl):
+                    got = g[ax, i * Lsub:(i + 1) * Lsub].sum() * dt
+                    if abs(got - b) > 1e-9 * max(abs(b), 1e-30) + 1e-18:
+                        r.violations.append(core.Violation(["C20"], "trap", dict(key, kind="kspace_increment", spoke=i, axis="xy"[ax]),
+                                                           "%s-gradient area inside spoke window %d is %.10g, requested increment %.10g" % ("xy"[ax], i, got, b), {}))
             if len(r.samples) < 6 and nsp % 50 == 1:
                 r.samples.append(key)
         r.traces += nsp
